@@ -19,6 +19,7 @@
 (*   ReqCq(t)         request of transaction t to /cq   -> "admit" | "refuse"   *)
 (*   EndCq(t)         response (or proxy error) of an admitted transaction t    *)
 (*   Metrics          read of the per-flow invocation counters -> <<nFw, nCq>>  *)
+(*   Scrape           read of the quotas' used-quota gauges (metrics observer)  *)
 (* A request first counts as an invocation of its flow (CountFw / CountCq) and  *)
 (* later is decided; both happen inside the call, so in a concurrent history    *)
 (* they are two separate internal steps of one operation.                       *)
@@ -84,6 +85,10 @@ ReqCq(t, out) ==
 EndCq(t) == infl' = infl \ {t} /\ UNCHANGED <<now, fwStart, fw, inv, sel>>
 
 Metrics(nfw, ncq) == nfw = inv.fw /\ ncq = inv.cq /\ UNCHANGED svars
+
+\* a read of the used-quota gauges (what a metrics scrape does to every quota): it succeeds and changes nothing - in
+\* particular it neither opens a window nor forgets what a transaction in flight was told
+Scrape(out) == out = "ok" /\ UNCHANGED svars
 
 \* invariants of the sequential machine (what no interleaving may break either)
 FwBound == \A g \in DOMAIN fw : fw[g] <= M
